@@ -317,7 +317,7 @@ _quick("C11", "C11_shared", "holder A (Count 5) with default / persist-immediate
 
 _quick("C07", "C07_relock", "a hold locked with E = 2 s (Rcount 2, persisted at once) and re-locked by its LockId one second later with E = 120 s; restart 0 / 2 / 6 s later: depth 2 and the re-lock's deadline restored", ["-witness", "3"])
 
-_quick("C07", "C07_ms", "a hold with the millisecond flag and E = 30000 ms, persisted at once; restart 0 / 6 / 20 s later: restored with its original deadline to within a second", ["-witness", "3"])
+_quick("C07", "C07_ms", "a hold with the millisecond flag and E = 30000 ms, persisted at once; restart 0 / 6 / 20 s later: restored with its original deadline to within a second (executor only: natively the millisecond wheel's sweeper goroutine works on the wall clock and races the harness for the hold's deadline)", ["-witness", "0"], native=False)
 
 _quick("C03", "C03_textpush", "0..6 text PUSH commands (each granted at once) on one connection, then LOCK and UNLOCK on another key: every PUSH answered once (a PUSH that blocks the connection is a violation), LOCK and UNLOCK answered with their own result and LockId, nothing left over", ["-witness", "3"], reach=["end", "pushed"], blocked="violation")
 
@@ -342,7 +342,7 @@ _quick("C09", "C09_sendfiles", "leader side of a full transfer: 4 persisted reco
 # small harnesses: every explored path is replayed natively ("-witness n" attaches a model to every n-th ok path)
 _ALL_PATHS = {"C12_logorder", "C16_values", "C16_staletmp", "C07_shared", "C18_anon", "C10_demote", "C18_adminwills",
               "C07_percent", "C11_shared", "C12_remote_newer", "C09_resync", "C03_textexpire", "C17_relock_long",
-              "C01_slowmap", "C09_cut", "C07_relock", "C07_ms", "C03_textpush", "C18_willwindow", "C05_unlockwait",
+              "C01_slowmap", "C09_cut", "C07_relock", "C03_textpush", "C18_willwindow", "C05_unlockwait",
               "C06_waitgrant", "C07_valexpired", "C09_sendfiles", "C15_textnum", "C18_reconnect2", "C08_bufcut",
               "C16_second", "C18_reinit", "C03_cancel", "C17_recycle"}
 for _c in CHECKS.values():
